@@ -282,6 +282,12 @@ func discharge(o *Obligation, workdir string, idx int, timeout int, all bool) {
 
 func dischargeAll(obls []*Obligation, workdir string, timeout int, all bool, par int) {
 	os.MkdirAll(workdir, 0o755)
+	// an obligation recorded as a known finding is expected not to be proved: it is only given
+	// a short time (enough to notice that it has started to hold, i.e. that the finding is gone)
+	known := map[string]bool{}
+	for _, k := range loadKnown().Findings {
+		known[k.Obligation] = true
+	}
 	var wg sync.WaitGroup
 	sem := make(chan struct{}, par)
 	for i, o := range obls {
@@ -290,7 +296,11 @@ func dischargeAll(obls []*Obligation, workdir string, timeout int, all bool, par
 		go func(i int, o *Obligation) {
 			defer wg.Done()
 			defer func() { <-sem }()
-			discharge(o, workdir, i, timeout, all)
+			t := timeout
+			if known[o.Name] && t > 8 {
+				t = 8
+			}
+			discharge(o, workdir, i, t, all)
 		}(i, o)
 	}
 	wg.Wait()
